@@ -43,7 +43,9 @@ def generate(rng, cfg: Dict) -> Dict:
             k = c.weighted([("assign", 3), ("self_assign", 2), ("ior", 2.5), ("add", 3), ("update", 2), ("gc", 0.4), ("sweep", 0.4), ("retire", 0.8), ("create_elem", 0.8), ("from_other", 1.2), ("assign_view", 1.5)])
         if k in ("assign", "iadd", "extend", "ior", "update"):
             # Python accepts any iterable for extend / update / += and any set-like for |=
-            arg = c.weighted([("same", 5), ("tuple", 1), ("generator", 2), ("iterator", 1), ("other", 1)]) if k in ("extend", "update", "iadd") else "same"
+            # ("failing": a generator that raises after its last element - the caller catches the exception and carries on;
+            # what the container took before the failure is part of the field, as with a plain list / set)
+            arg = c.weighted([("same", 5), ("tuple", 1), ("generator", 2), ("iterator", 1), ("other", 1), ("failing", 1.5)]) if k in ("extend", "update", "iadd") else "same"
             ops.append([k, some(0, 4), arg])
         elif k in ("append", "add"):
             ops.append([k, c.pick(elems)])
@@ -114,6 +116,14 @@ def execute(scenario: Dict) -> Dict:
             return iter(list(values))
         if arg_kind == "other":
             return set(values) if default is list else list(values)
+        if arg_kind == "failing":
+            counters.inc("fault.argument_raises_midway")
+
+            def failing():
+                yield from values
+                raise oworld.InjectedFault("the iterable failed")
+
+            return failing()
         return default(values)
 
     initial = [s for s in scenario.get("initial", []) if s in pop.objs]
@@ -350,7 +360,10 @@ def execute(scenario: Dict) -> Dict:
                     if arg_kind == "other":
                         vals = list(dict.fromkeys(vals))  # a set argument: order of a set is not defined, keep it well defined
                         arg_kind = "same" if len(vals) > 1 else "other"
-                    exec(f"o.{field} += xs", {"o": owner, "xs": as_argument(objs(vals), arg_kind, list)})
+                    try:
+                        exec(f"o.{field} += xs", {"o": owner, "xs": as_argument(objs(vals), arg_kind, list)})
+                    except oworld.InjectedFault:
+                        pass
                     model = model + vals
                     ever.update(vals)
                     nontrivial = True
@@ -372,7 +385,10 @@ def execute(scenario: Dict) -> Dict:
                     if arg_kind == "other":
                         vals = list(dict.fromkeys(vals))
                         arg_kind = "same" if len(vals) > 1 else "other"
-                    getattr(owner, field).extend(as_argument(objs(vals), arg_kind, list))
+                    try:
+                        getattr(owner, field).extend(as_argument(objs(vals), arg_kind, list))
+                    except oworld.InjectedFault:
+                        pass
                     model.extend(vals)
                     ever.update(vals)
                 elif k == "insert":
@@ -404,7 +420,10 @@ def execute(scenario: Dict) -> Dict:
                     ever.add(op[1])
                 elif k == "update":
                     vals = [s for s in op[1] if s in pop.objs]
-                    getattr(owner, field).update(as_argument(objs(vals), op[2] if len(op) > 2 else "same", set))
+                    try:
+                        getattr(owner, field).update(as_argument(objs(vals), op[2] if len(op) > 2 else "same", set))
+                    except oworld.InjectedFault:
+                        pass
                     model |= set(vals)
                     ever.update(vals)
                 else:
